@@ -120,10 +120,12 @@ RECURSIVE SumKids(_, _)
 SumKids(i, w) == IF w = 0 THEN 0 ELSE NKidsT[i] + SumKids(TLCEval(i + 1), TLCEval(w - 1))
 PDescT == [l \in Leads |-> (UNION {DescT[c] : c \in PCols(l)}) \ PCols(l)]
 
-(* assumptions on the constants: what sp_colorder guarantees (checked on the real code by C10) *)
+(* assumptions on the constants: what sp_colorder guarantees (checked on the real code by C10).
+   SbndOK (every leaf and every branch column starts a supernode of the bounding factor) holds for the
+   column-etree mode (qrnzcnt) and is assumed by the exhaustive model runs; the symmetric mode
+   (cholnzcnt) does not guarantee it, so recorded executions are validated without it. *)
 SbndOK == \A j \in Cols : (NKidsT[j] # 1) => j \in Sbnd
 ASSUME PostOrdered
-ASSUME SbndOK
 
 -----------------------------------------------------------------------------
 Init ==
